@@ -355,6 +355,10 @@ func (v *aStruct) emitEq(r Value) (insts []wat.Inst, ok bool) {
 	}
 
 	d := r.(*aStruct)
+	if len(v.typ.fields) == 0 {
+		// struct{} / [0]T: all values are equal
+		return []wat.Inst{wat.NewInstConst(wat.I32{}, "1")}, true
+	}
 	for i := range v.typ.fields {
 		t1 := v.genSubValue(v.typ.fields[i])
 		t2 := d.genSubValue(d.typ.fields[i])
@@ -384,6 +388,10 @@ func (v *aStruct) emitCompare(r Value) (insts []wat.Inst) {
 	block.Ret = append(block.Ret, wat.I32{})
 
 	d := r.(*aStruct)
+	if len(v.typ.fields) == 0 {
+		// struct{} / [0]T: all values compare equal (0)
+		return []wat.Inst{wat.NewInstConst(wat.I32{}, "0")}
+	}
 	for i := range v.typ.fields {
 		t1 := v.genSubValue(v.typ.fields[i])
 		t2 := d.genSubValue(d.typ.fields[i])
